@@ -247,6 +247,31 @@ pub fn queries(quick: bool) -> Vec<PolyQ> {
       }
     }
   }
+  // longitude representations: the same polygons with every vertex shifted by +-2 pi, and written
+  // with UNWRAPPED longitudes across lon = 0 (east part above 2 pi, or west part negative)
+  for &(lon, lat) in &[(0.0, 0.0), (TWO_PI - 1e-3, 0.1), (1e-3, -0.2), (0.05, 0.6), (2.7, -0.3)] {
+    for &r in &[0.003, 0.1, 0.28] {
+      for &n in &[3usize, 4, 5] {
+        for &rev in &[false, true] {
+          let base = make_polygon(lon, lat, n, r, 1.0, 0.37, rev);
+          let reps: Vec<Vec<(f64, f64)>> = vec![
+            base.iter().map(|&(l, b)| (l + TWO_PI, b)).collect(),
+            base.iter().map(|&(l, b)| (l - TWO_PI, b)).collect(),
+            base.iter().map(|&(l, b)| (if l < PI { l + TWO_PI } else { l }, b)).collect(),
+            base.iter().map(|&(l, b)| (if l > PI { l - TWO_PI } else { l }, b)).collect(),
+            base.iter().map(|&(l, b)| (l + 3.0 * TWO_PI, b)).collect(),
+          ];
+          for vertices in reps {
+            for &d in &[0u8, 3, 5] {
+              for &exact in &[false, true] {
+                v.push(PolyQ { depth: d, exact, vertices: vertices.clone(), lon, lat, radius: r, convex: true });
+              }
+            }
+          }
+        }
+      }
+    }
+  }
   // mid / large depths: polygons a few cells across, around generic (non-border) centres
   let deep: &[u8] = if quick { &[11, 17, 24] } else { &[10, 11, 13, 14, 17, 20, 24, 27, 29] };
   for &d in deep {
